@@ -190,8 +190,14 @@ def applyTrail (e : Ast) : List Trail → Ast
 that is not protected by parentheses? (`receiver_starts_with_prefix` in lower.rs) -/
 def prefixSpine : Cst → Bool
   | .call f _ => prefixSpine f
-  | .binary .Dot l _ => prefixSpine l
+  | .binary k l _ => if k = .Dot then prefixSpine l else false
   | .prefix _ _ => true
+  | _ => false
+
+/-- `is_postfix` in the `CallExpr` case: the callee is itself a call or a `.` access -/
+def isPostfixNode : Cst → Bool
+  | .call _ _ => true
+  | .binary k _ _ => decide (k = .Dot)
   | _ => false
 
 /-- the right operand of `.`: an `Int` token is a tuple index, an identifier a field name -/
@@ -211,6 +217,7 @@ def lower : Cst → List Trail → Option Ast
     | some a => some (applyTrail a tr)
     | none => none
   | .prefix k e, tr =>
+    -- postfix operations bind tighter than the prefix operator: they go to the operand
     match lower e tr, unOpOf k with
     | some a, some o => some (.un o a)
     | _, _ => none
@@ -220,28 +227,26 @@ def lower : Cst → List Trail → Option Ast
     | some as =>
       match f with
       | .ident s => some (applyTrail (.call (.var s) as) tr)
-      | .call _ _ =>
-        if prefixSpine f then lower f (.call as :: tr)
-        else match lower f [] with
+      | _ =>
+        if isPostfixNode f && !prefixSpine f then
+          match lower f [] with
           | some fe => some (applyTrail (.call fe as) tr)
           | none => none
-      | .binary .Dot _ _ =>
-        if prefixSpine f then lower f (.call as :: tr)
-        else match lower f [] with
-          | some fe => some (applyTrail (.call fe as) tr)
-          | none => none
-      | _ => lower f (.call as :: tr)
+        else
+          -- the callee is (or its receiver chain starts at) a prefix operator, a parenthesised
+          -- expression or something that cannot be called: hand the call down
+          lower f (.call as :: tr)
   | .binary k l r, tr =>
-    match k with
-    | .Dot =>
-      match dotPost r with
-      | none => none
-      | some post =>
-        if prefixSpine l then lower l (post :: tr)
-        else match lower l [] with
-          | some le => some (applyTrail (applyPost le post) tr)
-          | none => none
-    | _ =>
+    if k = .Dot then
+      if prefixSpine l then
+        match dotPost r with
+        | some post => lower l (post :: tr)
+        | none => none
+      else
+        match lower l [], dotPost r with
+        | some le, some post => some (applyTrail le (post :: tr))
+        | _, _ => none
+    else
       match lower l [], binOpOf k with
       | some le, some o =>
         match lower r tr with
